@@ -17,7 +17,9 @@ Init == l = 1
 Next == /\ l <= Len(TraceA) /\ l <= Len(TraceB)
         /\ TraceA[l].c = TraceB[l].c /\ TraceA[l].k = TraceB[l].k
         /\ Len(TraceA[l].q) = Len(TraceB[l].q)
-        /\ \A i \in 1..Len(TraceA[l].q) : Near(TraceA[l].q[i], TraceB[l].q[i])
+        \* after an ill-conditioned step (a discontinuity or an amplification beyond 2^10: see tools/gen_c20.py, ILL) in either
+        \* build the values are not comparable with a rounding slack; the event is consumed without the comparison
+        /\ (TraceA[l].loose = 1 \/ TraceB[l].loose = 1 \/ \A i \in 1..Len(TraceA[l].q) : Near(TraceA[l].q[i], TraceB[l].q[i])) = TRUE
         /\ l' = l + 1
 Spec == Init /\ [][Next]_l
 Accepted ==
